@@ -8,7 +8,12 @@ compiler phase come from the Coq model (`check`, driver op `derive`); items are 
 one failing phase does not mask another: expansion errors, type errors (E0600), literal lints
 (cargo check), arithmetic lints (cargo build), and a crate of everything the model accepts (cargo build).
 Property oracle, independent of the model: every mutation violates a rule by construction and so has to
-be refused; every control has to compile."""
+be refused; every control has to compile.
+Source-level cases (outside the item syntax of the model): RAW_CONTROLS must compile, RAW_NEGATIVES (a key repeated
+inside bound(..) / schema(..) / with_funcs(..)) must be refused by each of the three derives.
+A sample of the corpus is built a second time against `borsh = { features = ["derive"] }` (borsh-derive without its
+`schema` feature): violations are still refused, legal items compile, and a schema(..) field attribute is refused as an
+unknown key."""
 import random
 from collections import Counter
 
@@ -51,6 +56,35 @@ RAW_CONTROLS = [
 ]
 
 
+# negative controls given as source: a key repeated inside the NESTED lists the item syntax of the model cannot express
+# (`get_nested_meta_logic` serves bound(..), schema(..) and with_funcs(..) too; refused since 922f373, before it the last
+# occurrence silently won).  Each is compiled once per derive and must be REFUSED by every one of them (all three derives
+# parse the field attributes); the twin without the repetition is a positive control (all three derives in one module).
+_B2 = 'bound(serialize = "T: borsh::BorshSerialize", serialize = "T: borsh::BorshSerialize", deserialize = "T: borsh::BorshDeserialize")'
+_B1 = 'bound(serialize = "T: borsh::BorshSerialize", deserialize = "T: borsh::BorshDeserialize")'
+_B2D = 'bound(deserialize = "T: borsh::BorshDeserialize", serialize = "T: borsh::BorshSerialize", deserialize = "T: borsh::BorshDeserialize + Default")'
+_P2 = 'schema(params = "T => T", params = "T => T")'
+_P1 = 'schema(params = "T => T")'
+_W2 = 'schema(with_funcs(declaration = "crate::withfns::decl", declaration = "crate::withfns::decl", definitions = "crate::withfns::defs"))'
+_W2D = 'schema(with_funcs(definitions = "crate::withfns::defs", declaration = "crate::withfns::decl", definitions = "crate::withfns::defs"))'
+_W1 = 'schema(with_funcs(declaration = "crate::withfns::decl", definitions = "crate::withfns::defs"))'
+_SHAPES = [('struct', 'pub struct S<T> { pub a: u8, #[borsh(%s)] pub b: Vec<T>, #[borsh(skip)] pub c: u8 }'),
+           ('enum', 'pub enum S<T> { A, B(u8, #[borsh(%s)] Vec<T>), C { #[borsh(skip)] x: u8, y: u16 } }')]
+RAW_NEGATIVES = []        # (id, where, body with one %s for the derive path)
+for _sid, _shape in _SHAPES:
+    for _nid, _what, _neg, _pos in (('bound_ser', 'bound(serialize = .., serialize = .., deserialize = ..)', _B2, _B1),
+                                    ('bound_de', 'bound(deserialize = .., serialize = .., deserialize = ..)', _B2D, _B1),
+                                    ('params', 'schema(params = .., params = ..)', _P2, _P1),
+                                    ('wf_decl', 'schema(with_funcs(declaration = .., declaration = .., definitions = ..))', _W2, _W1),
+                                    ('wf_defs', 'schema(with_funcs(definitions = .., declaration = .., definitions = ..))', _W2D, _W1),
+                                    ('bound_params', 'bound(..) legal next to schema(params = .., params = ..)', _B1 + ', ' + _P2, _B1 + ', ' + _P1)):
+        RAW_NEGATIVES.append(('rawneg_%s_%s' % (_nid, _sid), 'a key twice in a nested list: %s on a field of a generic %s' % (_what, _sid),
+                              '#[derive(%s)]\n' + _shape % _neg))
+        if _nid in ('bound_ser', 'params', 'wf_decl', 'bound_params'):
+            RAW_CONTROLS.append(('raw_twin_%s_%s' % (_nid, _sid), 'legal twin of the nested-list repetition: %s on a field of a generic %s' % (_pos, _sid),
+                                 '#[derive(borsh::BorshSerialize, borsh::BorshDeserialize, borsh::BorshSchema)]\n' + _shape % _pos))
+
+
 def known_class(rule, where):
     if '[implicit-overflow]' in where:
         return 'implicit-discr-overflow'
@@ -72,8 +106,16 @@ def kinds_for(it, tier):
     return ('ser', 'de', 'schema')
 
 
-def evaluate(tier, seeds, driver, tagname=''):
+def has_schema_key(it):
+    return '(schema ' in I.item_sexp(it)
+
+
+def evaluate(tier, seeds, driver, tagname='', noschema=False):
     """Model verdicts + compile verdicts for the negatives and controls of the given seeds.
+    noschema: the second build -- borsh with `features = ["derive"]` only, i.e. borsh-derive WITHOUT its `schema` feature
+    (no BorshSchema derive, `schema` not in the field key map): a sample of the same corpus (one of BorshSerialize /
+    BorshDeserialize per item, alternating; every 4th of the discriminant-fit negatives), the model reading every
+    `schema(..)` entry as an unknown key (derivelib.without_schema_feature).
     Returns (stats, disagreements, failures)."""
     disagreements, failures = [], []
     stats = {'evaluations': 0, 'samples': []}
@@ -82,14 +124,26 @@ def evaluate(tier, seeds, driver, tagname=''):
         bases = I.base_items(sd)
         muts = I.mutations(bases)
         ctrls = I.controls(bases)
-        for name, rule, where, it in muts:
-            for k in kinds_for(it, tier):
+        for n_, (name, rule, where, it) in enumerate(muts):
+            if noschema and rule == 'discriminant-fit' and n_ % 4:
+                continue
+            for k in (kinds_for(it, tier) if not noschema else (('ser', 'de')[n_ % 2],)):
                 allcases.append({'id': 's%d_%s_%s' % (sd, name, k), 'neg': True, 'rule': rule, 'where': where, 'it': it, 'kind': k})
-        for name, where, it in ctrls:
-            for k in kinds_for(it, tier):
+        for n_, (name, where, it) in enumerate(ctrls):
+            for k in (kinds_for(it, tier) if not noschema else (('ser', 'de')[n_ % 2],)):
                 allcases.append({'id': 's%d_%s_%s' % (sd, name, k), 'neg': False, 'rule': 'control', 'where': where, 'it': it, 'kind': k})
-    raw = [{'id': 's%d_%s' % (seeds[0], rid), 'where': where, 'src': src} for rid, where, src in RAW_CONTROLS]
-    mv = model_verdicts(driver, [(c['id'], c['kind'], c['it']) for c in allcases])
+    if not noschema:
+        raw = [{'id': 's%d_%s' % (seeds[0], rid), 'where': where, 'src': src} for rid, where, src in RAW_CONTROLS]
+        rawneg = [{'id': 's%d_%s_%s' % (seeds[0], rid, k), 'where': where, 'kind': k, 'src': src % ('borsh::' + KINDS[k])}
+                  for rid, where, src in RAW_NEGATIVES for k in ('ser', 'de', 'schema')]
+    else:
+        # the repetitions inside bound(..) are refused as such; those inside schema(..) already because `schema` is unknown;
+        # the legal bound(..) twins (BorshSchema taken off the derive list) still compile
+        raw = [{'id': 's%d_%s' % (seeds[0], rid), 'where': where, 'src': src.replace(', borsh::BorshSchema', '')}
+               for rid, where, src in RAW_CONTROLS if rid.startswith('raw_twin_bound_ser')]
+        rawneg = [{'id': 's%d_%s_%s' % (seeds[0], rid, k), 'where': where, 'kind': k, 'src': src % ('borsh::' + KINDS[k])}
+                  for rid, where, src in RAW_NEGATIVES for k in ('ser', 'de')]
+    mv = model_verdicts(driver, [(c['id'], c['kind'], c['it']) for c in allcases], fix=without_schema_feature if noschema else None)
     stats['evaluations'] += len(allcases)
     batches = {'expansion': [], 'type': [], 'literal': [], 'arith': [], 'accept': []}
     classes = Counter()
@@ -110,8 +164,10 @@ def evaluate(tier, seeds, driver, tagname=''):
             batches['accept'].append(c)
         else:
             batches[PHASE.get(v.split(':')[1], 'expansion')].append(c)
-    prelude = 'pub mod withfns {\n' + I.C18_WITHFNS + '\n}'
+    withfns = I.C18_WITHFNS if not noschema else '\n'.join(l for l in I.C18_WITHFNS.split('\n') if 'borsh::schema::' not in l)
+    prelude = 'pub mod withfns {\n' + withfns + '\n}'
     results = {}
+    late_failures = []       # source-level negatives: reported after the generated ones
     stats['batches'] = {}
     for bname, cs in batches.items():
         if not cs:
@@ -119,7 +175,10 @@ def evaluate(tier, seeds, driver, tagname=''):
         mods = [(c['id'], module_body(c['it'], c['kind'])) for c in cs]
         if bname == 'accept':
             mods += [(r['id'], r['src']) for r in raw]
-        d, ranges = cp.module_crate('c18_' + bname + tagname, mods, prelude=prelude)
+        if bname == 'expansion':
+            mods += [(r['id'], r['src']) for r in rawneg]
+        d, ranges = cp.module_crate(('c18ns_' if noschema else 'c18_') + bname + tagname, mods, prelude=prelude,
+                                    deps=cp.DEPS_NOSCHEMA if noschema else None)
         if bname in ('arith', 'accept'):
             # arithmetic_overflow is a MIR lint: reported by `cargo build`, not by `cargo check`
             cmd_build = True
@@ -134,6 +193,15 @@ def evaluate(tier, seeds, driver, tagname=''):
         stats['batches'][bname] = {'items': len(cs), 'failed_to_compile': len([1 for c in cs if by_mod.get(c['id'])])}
         for c in cs:
             results[c['id']] = by_mod.get(c['id'])
+        if bname == 'expansion':
+            for r in rawneg:
+                stats['evaluations'] += 1
+                errs_ = by_mod.get(r['id'])
+                stats.setdefault('raw_negatives', {})[r['where'] + ' [' + r['kind'] + ']'] = 'compiles' if errs_ is None else 'refused: ' + errs_[0][1][:80]
+                if errs_ is None:
+                    late_failures.append({'class': 'not-refused:repeated-key', 'key': r['id'], 'rule': 'repeated-key',
+                                     'what': 'a definition violating the rule "repeated-key" compiles with derive(%s): %s' % (KINDS[r['kind']], r['where']),
+                                     'source': r['src']})
         if bname == 'accept':
             for r in raw:
                 stats['evaluations'] += 1
@@ -165,11 +233,20 @@ def evaluate(tier, seeds, driver, tagname=''):
             failures.append({'class': known_class(c['rule'], c['where']), 'key': c['where'] + ' ' + c['kind'],
                              'what': 'a definition violating the rule "%s" compiles with derive(%s): %s' % (c['rule'], KINDS[c['kind']], c['where']),
                              'source': src, 'rule': c['rule']})
+        if noschema and not c['neg'] and has_schema_key(c['it']):
+            # legal with the schema feature; without it `schema(..)` is an unknown field key and has to be refused as such
+            classes['control-with-schema-key' + (':compiles' if compiled else ':refused')] += 1
+            if compiled:
+                failures.append({'class': 'not-refused:schema-key-without-feature', 'key': c['where'] + ' ' + c['kind'],
+                                 'what': 'borsh-derive without its schema feature accepts a schema(..) field attribute with derive(%s): %s' % (KINDS[c['kind']], c['where']),
+                                 'source': src})
+            continue
         if not c['neg'] and not compiled:
             failures.append({'class': 'legal-item-refused', 'key': c['where'] + ' ' + c['kind'],
                              'what': 'a legal definition is refused with derive(%s): %s: %s' % (KINDS[c['kind']], c['where'], errs[0][1][:200]),
                              'source': src})
         classes[('neg:' + c['rule'] if c['neg'] else 'control') + (':compiles' if compiled else ':refused')] += 1
+    failures += late_failures
     stats['result_classes'] = dict(classes)
     stats['diagnostic_codes'] = dict(phase_codes)
     stats['distinct_nontrivial'] = len(set((c['where'], c['kind']) for c in allcases if c['id'] in results))
@@ -189,6 +266,18 @@ def run(tier, seed, t0):
     driver = ensure_driver()
     seeds = [seed] if tier == 'quick' else [seed, seed + 1000, seed + 2000]
     stats, disagreements, failures = evaluate(tier, seeds, driver)
+    # the second build: borsh-derive without its `schema` feature (plain `borsh = { features = ["derive"] }`)
+    ns, ndis, nfails = evaluate(tier, seeds[:1], driver, noschema=True)
+    for d_ in ndis:
+        d_['what'] = '[features = ["derive"] only] ' + d_['what']
+    for f_ in nfails:
+        f_['what'] = '[features = ["derive"] only] ' + f_['what']
+        f_['key'] = 'noschema ' + f_['key']
+    disagreements += ndis
+    failures += nfails
+    stats['evaluations'] += ns['evaluations']
+    stats['traces_validated_against_impl'] += ns['traces_validated_against_impl']
+    stats['noschema_build'] = {k_: ns[k_] for k_ in ('result_classes', 'batches', 'negatives', 'controls', 'diagnostic_codes', 'raw_controls', 'raw_negatives', 'samples') if k_ in ns}
 
     def search():
         # something broke without a failing definition at hand: the property oracle on other seeds
@@ -200,7 +289,9 @@ def run(tier, seed, t0):
                     level_note='theorem about the Gallina transcription of the macro checks and of the u8 typing of tag expressions; '
                                'rustc diagnostics are observed on generated programs in this run; C18_exact holds outside three named classes '
                                '(variant attributes, implicit discriminant overflow, type-dependent discriminant expressions), each refuted by a witness',
-                    extra_assumptions=['borsh-derive built with its `schema` feature (field key `schema(...)` known to all three derives)'])
+                    extra_assumptions=['the theorems are about borsh-derive built with its `schema` feature (field key `schema(...)` known to all three '
+                                       'derives); for the build without it the model item is rewritten (every schema(..) entry becomes an unknown key) before '
+                                       '`check` is asked, and only BorshSerialize / BorshDeserialize exist'])
 
 
 def cargo_run(crate_dir, target, build):
